@@ -7,6 +7,7 @@ import ast
 from gv import rules
 from gv.astutil import compare_parts
 from gv.astutil import dotted
+from gv.astutil import kwarg
 from gv.astutil import last_attr
 from gv.astutil import names_in
 from gv.astutil import norm_stmt
@@ -200,11 +201,11 @@ def check_placement(ctx: Ctx) -> None:
         conds = [(norm_stmt(cfg.ast[t].test), v) for t, v in branch_conditions(cfg, cfg.node_of(st[0])) if cfg.kind[t] == "test" and "x_indices" in norm_stmt(cfg.ast[t].test)]
         ctx.ob("16.3-placement", con, conds in ([("not x_indices", False)], [("x_indices", True)]), "the placement applies iff a subset of components is requested", node=st[0], stmt="placement iff x_indices")
     call = [c for c in walk_body(f) if isinstance(c, ast.Call) and last_attr(c) == "f_gradient"]
-    ok = len(call) == 1 and any(k.arg == "x_indices" and dotted(k.value) == "x_indices" for k in call[0].keywords) and any(k.arg == "step" and dotted(k.value) == "step" for k in call[0].keywords)
+    ok = len(call) == 1 and dotted(kwarg(call[0], "x_indices")) == "x_indices" and dotted(kwarg(call[0], "step")) == "step"
     ctx.ob("16.3-placement", con, ok, "the approximator must be asked for the same components that are placed", node=(call or [f])[0])
     g = ctx.index.method(BA, "BaseGradientApproximator", "f_gradient")
     gen = [c for c in walk_body(g) if isinstance(c, ast.Call) and last_attr(c) == "generate_perturbations"]
-    ok = len(gen) == 1 and any(k.arg == "x_indices" and dotted(k.value) == "x_indices" for k in gen[0].keywords) and any(k.arg == "step" and dotted(k.value) == "step" for k in gen[0].keywords)
+    ok = len(gen) == 1 and dotted(kwarg(gen[0], "x_indices")) == "x_indices" and dotted(kwarg(gen[0], "step")) == "step"
     ctx.ob("16.3-placement", cname(BA, "BaseGradientApproximator", "f_gradient"), ok, "f_gradient forwards the component subset and the step to the perturbation generator", node=(gen or [g])[0])
     comp = [c for c in walk_body(g) if isinstance(c, ast.Call) and dotted(c.func) == "compute"]
     ok = len(comp) == 1 and gen
